@@ -47,6 +47,8 @@ type Converter struct {
 	FileName string
 	typ      types.Type
 	Methods  []*Method
+	// structOnly is the last setting seen that needs output:format struct.
+	structOnly string
 
 	Location string
 }
@@ -185,6 +187,7 @@ func parseConverterLine(ctx *context, c *Converter, value string) (err error) {
 		if err = c.requireStruct(); err != nil {
 			return err
 		}
+		c.structOnly = cmd
 		c.Name, err = parse.String(rest)
 		if err == nil && !token.IsIdentifier(c.Name) {
 			err = fmt.Errorf("invalid identifier: %q", c.Name)
@@ -201,6 +204,11 @@ func parseConverterLine(ctx *context, c *Converter, value string) (err error) {
 		c.OutputFormat, err = parse.Enum(false, rest, FormatFunction, FormatStruct, FormatVariable)
 		if err != nil {
 			return err
+		}
+
+		if c.OutputFormat != FormatStruct && c.structOnly != "" {
+			// the check of these settings must not depend on the order of the lines
+			return fmt.Errorf("not allowed together with goverter:%s", c.structOnly)
 		}
 
 		if c.typ == nil && c.OutputFormat != FormatVariable {
@@ -229,6 +237,7 @@ func parseConverterLine(ctx *context, c *Converter, value string) (err error) {
 		if err = c.requireStruct(); err != nil {
 			return err
 		}
+		c.structOnly = cmd
 		c.Comments = append(c.Comments, rest)
 	case "enum:exclude":
 		var pattern enum.IDPattern
